@@ -62,9 +62,32 @@ pub fn run_jsonld(i: &Input) -> Value {
             ev["serok"] = json!(true);
             ev["text"] = cps(&t);
             ev["out"] = out_json(out);
+            // the value objects carrying a base direction, read from the document itself
+            let mut dirobjs = vec![];
+            if let Ok(doc) = serde_json::from_str::<Value>(&t) {
+                collect_dirobjs(&doc, &mut dirobjs);
+            }
+            ev["dirobjs"] = json!(dirobjs);
         }
     }
+    if ev.get("dirobjs").is_none() {
+        ev["dirobjs"] = json!([]);
+    }
     ev
+}
+
+fn collect_dirobjs(v: &Value, acc: &mut Vec<Value>) {
+    match v {
+        Value::Array(a) => a.iter().for_each(|x| collect_dirobjs(x, acc)),
+        Value::Object(o) => {
+            if let Some(d) = o.get("@direction") {
+                let s = |x: Option<&Value>| cps(x.and_then(|x| x.as_str()).unwrap_or(""));
+                acc.push(json!({"v": s(o.get("@value")), "lang": s(o.get("@language")), "dir": s(Some(d))}));
+            }
+            o.values().for_each(|x| collect_dirobjs(x, acc));
+        }
+        _ => {}
+    }
 }
 
 pub fn run_xml(i: &Input) -> Value {
